@@ -259,6 +259,10 @@ class Gen:
         shape = rng.choice(["perfect", "perfect", "mixed", "mixed", "mixed"]) if depth < 3 else "leaf"
         if top:
             kinds = ["pre"] * rng.choice([0, 0, 1]) + ["for"] + ["post"] * rng.choice([0, 0, 1]) + ["for"] * rng.choice([0, 0, 1])
+        elif depth <= 1 and self.family == "canon" and rng.random() < 0.12:
+            # sibling loops in one body (both effectful): merging one of them into the parent would
+            # multiply the executions of the other
+            kinds = ["pure"] * rng.choice([0, 0, 1]) + ["sfor"] + ["pure"] * rng.choice([0, 0, 1]) + ["sfor"] + ["eff"] * rng.choice([0, 0, 0, 1])
         elif shape == "perfect" and depth < 3 and rng.random() < 0.7:
             kinds = ["pure"] * rng.choice([0, 0, 1, 2]) + ["for"] + ["pure"] * rng.choice([0, 0, 1])
         elif depth >= 3 or rng.random() < 0.45:
@@ -270,6 +274,18 @@ class Gen:
         for k in kinds:
             if k in ("pre", "post"):
                 k = rng.choice(["eff", "pure", "mem"])
+            if k == "sfor":
+                nonneg = [n for v, n in self.consts.items() if v >= 0]
+                ub = rng.choice(nonneg)
+                st = self.consts[1] if rng.random() < 0.8 else rng.choice(nonneg)
+                iv = self.fresh("i")
+                self.emit(ind, f"scf.for {iv} = {self.consts[0]} to {ub} step {st} {{")
+                if rng.random() < 0.75:
+                    self.eff(ind + 1, idx + [iv], ivs + [iv], mems)
+                else:
+                    self.block(ind + 1, depth + 1, idx + [iv], ivs + [iv], mems)
+                self.emit(ind, "}")
+                continue
             if k == "for" and depth < 3:
                 lb = self.consts[0] if rng.random() < 0.85 else rng.choice(cpool + ["%a0"])
                 ub = rng.choice(cpool) if rng.random() < 0.93 else "%a0"
@@ -559,8 +575,42 @@ CORPUS = {
     }
   }
   func.return } }""",
+        # two effectful sibling loops in one body: neither may be merged into the parent
+        """builtin.module { func.func @f(%a0 : index) {
+  %c0 = arith.constant 0 : index
+  %c1 = arith.constant 1 : index
+  %c2 = arith.constant 2 : index
+  %c3 = arith.constant 3 : index
+  scf.for %i = %c0 to %c3 step %c1 {
+    scf.for %j = %c0 to %c2 step %c1 { "test.op"(%i, %j) {tag = 1 : i32} : (index, index) -> () }
+    scf.for %k = %c0 to %c3 step %c1 { "test.op"(%i, %k) {tag = 2 : i32} : (index, index) -> () }
+  }
+  func.return } }""",
     ],
     "reuse": [
+        # dims of rank-3 subviews mixing dynamic and static sizes (operand index of a dynamic size)
+        """builtin.module { func.func @f(%a0 : index, %m0 : memref<?x?xi8>) {
+  %c0 = arith.constant 0 : index
+  %c1 = arith.constant 1 : index
+  %c2 = arith.constant 2 : index
+  %c3 = arith.constant 3 : index
+  %c5 = arith.constant 5 : index
+  %c6 = arith.constant 6 : index
+  %g3 = memref.alloc(%c6, %c6) : memref<?x?x4xi8>
+  %h3 = memref.alloc(%c6, %c6) : memref<?x4x?xi8>
+  scf.for %i = %c0 to %c3 step %c1 {
+    %sv = memref.subview %g3[%i, 0, 0] [%c3, %c5, 4] [1, 1, 1] : memref<?x?x4xi8> to memref<?x?x4xi8, strided<[?, 4, 1], offset: ?>>
+    %d0 = memref.dim %sv, %c0 : memref<?x?x4xi8, strided<[?, 4, 1], offset: ?>>
+    %d1 = memref.dim %sv, %c1 : memref<?x?x4xi8, strided<[?, 4, 1], offset: ?>>
+    %al = memref.alloc(%d0, %d1) : memref<?x?xi8>
+    "test.op"(%i, %al) {tag = 1 : i32} : (index, memref<?x?xi8>) -> ()
+    %sw = memref.subview %h3[%i, 0, 0] [%c2, 4, %c5] [1, 1, 1] : memref<?x4x?xi8> to memref<?x4x?xi8, strided<[?, ?, 1], offset: ?>>
+    %e0 = memref.dim %sw, %c0 : memref<?x4x?xi8, strided<[?, ?, 1], offset: ?>>
+    %e2 = memref.dim %sw, %c2 : memref<?x4x?xi8, strided<[?, ?, 1], offset: ?>>
+    %am = memref.alloc(%e0, %e2) : memref<?x?xi8>
+    "test.op"(%i, %am) {tag = 2 : i32} : (index, memref<?x?xi8>) -> ()
+  }
+  func.return } }""",
         # a loop that loads from and stores to a loop-invariant address
         """builtin.module { func.func @f(%a0 : index, %m0 : memref<?x?xi8>) {
   %c0 = arith.constant 0 : index
